@@ -40,6 +40,21 @@ def check_partition(track, obs_before, marked, coll, m_vals):
     return None
 
 
+def check_alias(track, obs_before, uid_before, coll):
+    """the pieces are new tracks: splitting neither renames nor hands out the input track, and editing a piece leaves the input alone"""
+    n = len(obs_before)
+    pieces = coll.getTracks()
+    if any(p is track for p in pieces):
+        return 'a piece returned by split is the input track object itself'
+    if track.uid != uid_before:
+        return 'split renamed the input track'
+    if pieces and pieces[0].size() > 0:
+        pieces[0].removeObs(0)
+    if track.size() != n or any(track.getObs(i) is not obs_before[i] for i in range(n)):
+        return 'editing a piece returned by split changed the input track'
+    return None
+
+
 class C11(Check):
     id = 'C11'
     crosshair = ['c11_split_partitions']      # thorough tier: the same property as a PEP-316 contract analysed by CrossHair (xh/contracts.py)
@@ -73,6 +88,8 @@ class C11(Check):
                     continue
                 for mode in (1, 2):
                     js.append(dict(kind='seg', n=n, k=k, mode=mode, twice=False))
+                    if k == 2:       # the same feature tested twice with two thresholds (a band test in AND mode)
+                        js.append(dict(kind='seg', n=n, k=k, mode=mode, twice=False, dup=True))
                     if n * k <= 3:
                         js.append(dict(kind='seg', n=n, k=k, mode=mode, twice=True))
         return js
@@ -95,6 +112,7 @@ class C11(Check):
                     ms.append(v)
             tr = make_track(n, feats={'m': ms})
             before = [tr.getObs(i) for i in range(n)]
+            uid0 = tr.uid
             try:
                 coll = seg.split(tr, 'm')
             except Exception as e:
@@ -103,7 +121,7 @@ class C11(Check):
             marked = [bool(m == 1) for m in ms]      # already decided on this path: no new fork
             ctx.observe(sizes=[t.size() for t in coll.getTracks()])
             ctx.reach()
-            v = check_partition(tr, before, marked, coll, ms)
+            v = check_partition(tr, before, marked, coll, ms) or check_alias(tr, before, uid0, coll)
             ctx.note = 'marked=%r' % (marked,)
             if v:
                 ctx.fail(v.split(':')[0])
@@ -114,6 +132,9 @@ class C11(Check):
             if job['twice']:
                 rounds.insert(0, [eng.real('thr0_%d' % f, -100, 100) for f in range(k)])
             names = ['f%d' % f for f in range(k)]
+            if job.get('dup'):
+                names = ['f0'] * k
+                vals = [vals[0]] * k
             tr = make_track(n, feats={names[f]: vals[f] for f in range(k)})
             before = [tr.getObs(i) for i in range(n)]
             for thr in rounds:
@@ -154,18 +175,23 @@ class C11(Check):
                 ms.append(int(v) if job['typ'] == 'int' else float(v))
             tr = make_track(n, feats={'m': ms})
             before = [tr.getObs(i) for i in range(n)]
+            uid0 = tr.uid
             try:
                 coll = seg.split(tr, 'm')
             except Exception as e:
                 return dict(violation='split raised %s: %s (markers %r)' % (type(e).__name__, e, ms))
-            v = check_partition(tr, before, [m == 1 for m in ms], coll, ms)
-            return dict(violation=(v + ' (markers %r)' % ms) if v else None, outputs=dict(sizes=[t.size() for t in coll.getTracks()]))
+            sizes = [t.size() for t in coll.getTracks()]
+            v = check_partition(tr, before, [m == 1 for m in ms], coll, ms) or check_alias(tr, before, uid0, coll)
+            return dict(violation=(v + ' (markers %r)' % ms) if v else None, outputs=dict(sizes=sizes))
         n, k, mode = job['n'], job['k'], job['mode']
         vals = [[float(inp['v%d_%d' % (f, i)]) for i in range(n)] for f in range(k)]
         rounds = [[float(inp['thr%d' % f]) for f in range(k)]]
         if job['twice']:
             rounds.insert(0, [float(inp['thr0_%d' % f]) for f in range(k)])
         names = ['f%d' % f for f in range(k)]
+        if job.get('dup'):
+            names = ['f0'] * k
+            vals = [vals[0]] * k
         tr = make_track(n, feats={names[f]: vals[f] for f in range(k)})
         for thr in rounds:
             try:
